@@ -32,8 +32,10 @@ MANIFEST = dict(
     note="Lean 4.33 kernel; axioms propext/Classical.choice/Quot.sound at most; protocol-level model tied to dsh.c by "
          "trace acceptance; pthread/sigwait semantics modelled, not verified; scheduler granularity = wrapped calls "
          "(plain memory races between _cancel_pending_threads and _update_connect_state are below it); asynchronous "
-         "delivery inside libc, exit() racing with threads holding a stdio lock, deferred pthread_cancel and _wdog on the "
-         "freed t[] are outside the model; the form of the worker's first state write (blind as pinned = finding "
+         "delivery inside libc and exit() racing with threads holding a stdio lock are outside the model; deferred "
+         "pthread_cancel of the signals thread and the join before dsh() returns are in the model (St.scan, SAct.die; "
+         "signals_thread_ended_before_return, progress_needs_only_sigwait); forwarding below dsh.c is checked on the "
+         "real execcmd.c/pipecmd.c with real children (harness/execsig_harness.c); the form of the worker's first state write (blind as pinned = finding "
          "F20-LOSTCANCEL: a created-but-not-yet-connecting host that ^C^Z reports as canceled runs anyway; guarded = "
          "repaired) is probed by behaviour on every run and model, acceptor and theorems cover both; harness, gcc, "
          "ASan/UBSan trusted")
